@@ -109,6 +109,8 @@ Lemma ok_pair_inj {A B} (a c : A) (b d : B) : @Ok (A * B) (a, b) = Ok (c, d) -> 
 Proof. intros H; inversion H; auto. Qed.
 Lemma ok_inj {A} (a c : A) : Ok a = Ok c -> a = c.
 Proof. intros H; inversion H; auto. Qed.
+Lemma ok_some_inj {A} (a c : A) : Some a = Some c -> a = c.
+Proof. intros H; inversion H; auto. Qed.
 Ltac okinj H := first [apply ok_pair_inj in H; destruct H as [<- <-] | apply ok_inj in H; subst].
 
 Lemma enc_pcr_bits c : ibz (enc_pcr c) = 48.
@@ -1004,4 +1006,300 @@ Proof.
   - intros pid ctx H. discriminate.
   - apply new_cc_wf.
   - apply new_cc_wf.
+Qed.
+
+(* ---------------- what one call does to the counters (C05) ---------------- *)
+
+Lemma table_packet_cc pid cc payload : cc_wf cc ->
+  pkt_cc (table_packet pid (wrappingCounter_inc cc) payload) = cc_val (wrappingCounter_inc_st cc).
+Proof.
+  intros H. destruct (inc_st_spec cc H) as (_ & Hr & _).
+  unfold pkt_cc, table_packet. cbn [Packet_Header mk_header PacketHeader_ContinuityCounter]. rewrite inc_is_value.
+  rewrite (Z.mod_small _ 256) by lia. apply Z.mod_small. lia.
+Qed.
+
+Lemma pmt_pid_not_pat : (C_pmtStartPID =? C_PIDPAT) = false. Proof. reflexivity. Qed.
+Lemma pat_pid_not_pmt : (C_PIDPAT =? C_pmtStartPID) = false. Proof. reflexivity. Qed.
+
+(* the payload counters the table pair contributes on a PID *)
+Lemma payload_ccs_tables pid s ppay mpay : cc_wf (ms_pat_cc s) -> cc_wf (ms_pmt_cc s) ->
+  payload_ccs pid [table_packet C_PIDPAT (wrappingCounter_inc (ms_pat_cc s)) ppay;
+                   table_packet C_pmtStartPID (wrappingCounter_inc (ms_pmt_cc s)) mpay] =
+  (if C_PIDPAT =? pid then [cc_val (wrappingCounter_inc_st (ms_pat_cc s))] else []) ++
+  (if C_pmtStartPID =? pid then [cc_val (wrappingCounter_inc_st (ms_pmt_cc s))] else []).
+Proof.
+  intros Hpat Hpmt. unfold payload_ccs.
+  cbn [filter pkt_has_payload pkt_pid table_packet Packet_Header mk_header PacketHeader_HasPayload PacketHeader_PID andb].
+  destruct (C_PIDPAT =? pid), (C_pmtStartPID =? pid); cbn [map app];
+    rewrite ?(table_packet_cc C_PIDPAT _ ppay Hpat), ?(table_packet_cc C_pmtStartPID _ mpay Hpmt); reflexivity.
+Qed.
+
+(* effect of a call's table emission on the PAT / PMT counters and on the packets of any PID *)
+Definition tables_effect (s sr : mstate) (pkts : list Packet) : Prop :=
+  (pkts = [] /\ ms_pat_cc sr = ms_pat_cc s /\ ms_pmt_cc sr = ms_pmt_cc s) \/
+  (exists ppay mpay, pkts = [table_packet C_PIDPAT (wrappingCounter_inc (ms_pat_cc s)) ppay;
+                             table_packet C_pmtStartPID (wrappingCounter_inc (ms_pmt_cc s)) mpay] /\
+     ms_pat_cc sr = wrappingCounter_inc_st (ms_pat_cc s) /\ ms_pmt_cc sr = wrappingCounter_inc_st (ms_pmt_cc s)).
+
+Lemma retransmit_effect s f sr pt : retransmit_tables s f = (sr, pt) -> pa_res pt <> Panic -> tables_effect s sr (pa_pkts pt).
+Proof.
+  intros H Hnp. destruct (retransmit_spec _ _ _ _ H Hnp) as [(_ & -> & ->)|[(_ & c & _ & -> & -> & _)|(_ & Hok & ->)]].
+  - left. repeat split; reflexivity.
+  - left. repeat split; reflexivity.
+  - right. destruct Hok as (ppay & mpay & bpat & bpmt & _ & Hp & _). exists ppay, mpay. split; [exact Hp|]. split; reflexivity.
+Qed.
+
+Lemma write_tables_effect s s' p : write_tables s = (s', p) -> pa_res p <> Panic -> tables_effect s s' (pa_pkts p).
+Proof.
+  intros H Hnp. destruct (write_tables_spec _ _ _ H Hnp) as [(c & _ & -> & -> & _)|Hok].
+  - left. repeat split; reflexivity.
+  - right. destruct Hok as (ppay & mpay & bpat & bpmt & _ & Hp & _ & _ & _ & _ & _ & _ & _ & ->). exists ppay, mpay. split; [exact Hp|]. split; reflexivity.
+Qed.
+
+Lemma tables_effect_other s sr pkts pid : tables_effect s sr pkts -> cc_wf (ms_pat_cc s) -> cc_wf (ms_pmt_cc s) ->
+  pid <> C_PIDPAT -> pid <> C_pmtStartPID -> payload_ccs pid pkts = [].
+Proof.
+  intros [(-> & _)|(ppay & mpay & -> & _)] Hpat Hpmt H1 H2; [reflexivity|].
+  rewrite payload_ccs_tables by assumption.
+  destruct (C_PIDPAT =? pid) eqn:E1; [lia|]. destruct (C_pmtStartPID =? pid) eqn:E2; [lia|]. reflexivity.
+Qed.
+
+Lemma ccs_from_nil c k : ccs_from c k = [] -> k = O.
+Proof. destruct k; [reflexivity|discriminate]. Qed.
+
+(* an elementary stream's counter: a call either removes the stream, or emits k payload packets on its PID
+   carrying the next k counter values and leaves the counter k steps further *)
+Lemma step_es_effect s o s' p pid c : ms_inv s -> mux_step_part s o = (s', p) -> pa_res p <> Panic -> op_entry_ok o ->
+  pid <> C_PIDPAT -> pid <> C_pmtStartPID -> es_cc pid s = Some c ->
+  (removes pid o p = true /\ payload_ccs pid (muxer_pkts o p) = [] /\ es_cc pid s' = None) \/
+  (removes pid o p = false /\ exists k, payload_ccs pid (muxer_pkts o p) = ccs_from c k /\ es_cc pid s' = Some (iter_inc k c)).
+Proof.
+  intros Hinv Hstep Hnp Hen Hn1 Hn2 Hc. pose proof Hinv as [Hkeys Hnd Hwf Hpat Hpmt].
+  unfold es_cc in *. destruct (es_find pid (ms_es s)) as [ctx0|] eqn:Ef0; [|discriminate].
+  cbn [option_map] in Hc. apply ok_some_inj in Hc. subst c.
+  assert (Hmem : es_mem pid (ms_es s) = true) by (rewrite es_mem_find, Ef0; reflexivity).
+  destruct o as [es|q|q| |d|pk]; cbn [mux_step_part muxer_pkts removes] in *.
+  - (* Add *)
+    right. split; [reflexivity|]. exists O. cbn [ccs_from iter_inc].
+    unfold add_es in Hstep. fold (spid es) in Hstep.
+    destruct (negb (spid es =? 0)) eqn:Ezero.
+    + destruct (stream_pid_in (spid es) (ms_streams s)) eqn:Edup; pinj Hstep; cbn [pa_pkts part_of_res]; [rewrite Ef0; split; reflexivity|].
+      split; [reflexivity|]. cbn [set_streams_es ms_es]. rewrite es_find_put.
+      destruct (spid es =? pid) eqn:E; [|rewrite Ef0; reflexivity].
+      apply Z.eqb_eq in E. rewrite E, <- Hkeys, Hmem in Edup. discriminate.
+    + destruct (next_free_pid _ _ _) as [np|] eqn:Enf; pinj Hstep; [|cbn in Hnp; congruence].
+      destruct (next_free_pid_spec _ _ _ _ Enf) as [Hfree _]. cbn [pa_pkts part_of_res].
+      split; [reflexivity|]. cbn [set_streams_es ms_es]. rewrite es_find_put.
+      destruct (np =? pid) eqn:E; [|rewrite Ef0; reflexivity].
+      apply Z.eqb_eq in E. subst np. congruence.
+  - (* Remove *)
+    unfold remove_es in Hstep. destruct (stream_pid_in q (ms_streams s)) eqn:Ein; pinj Hstep; cbn [pa_pkts pa_res part_of_res is_ok].
+    + destruct (q =? pid) eqn:E; cbn [andb].
+      * left. repeat split; try reflexivity. cbn [set_streams_es ms_es]. rewrite es_find_del, E. reflexivity.
+      * right. split; [reflexivity|]. exists O. split; [reflexivity|]. cbn [set_streams_es ms_es ccs_from iter_inc]. rewrite es_find_del, E, Ef0. reflexivity.
+    + right. rewrite andb_false_r. split; [reflexivity|]. exists O. rewrite Ef0. split; reflexivity.
+  - (* SetPCR *)
+    pinj Hstep. right. split; [reflexivity|]. exists O. cbn [set_pcr ms_es pa_pkts part_of_res]. rewrite Ef0. split; reflexivity.
+  - (* WriteTables *)
+    right. split; [reflexivity|]. exists O. cbn [ccs_from iter_inc].
+    pose proof (write_tables_effect _ _ _ Hstep Hnp) as Heff.
+    rewrite (tables_effect_other _ _ _ pid Heff) by assumption. split; [reflexivity|].
+    destruct (write_tables_spec _ _ _ Hstep Hnp) as [(c & _ & -> & _)|(? & ? & ? & ? & _ & _ & _ & _ & _ & _ & _ & _ & _ & ->)];
+      cbn [tables_state set_tables ms_es]; rewrite Ef0; reflexivity.
+  - (* WriteData *)
+    right. split; [reflexivity|].
+    destruct (write_data_spec _ _ _ _ Hstep Hnp Hen (Hwf _)) as [(_ & -> & ->)|(ctx & sr & pt & Hf & Hrt & Hnpt & Hcases)].
+    { exists O. cbn [pa_pkts]. rewrite Ef0. split; reflexivity. }
+    destruct (retransmit_frame _ _ _ _ Hrt Hnpt) as (Fes & _).
+    pose proof (retransmit_effect _ _ _ _ Hrt Hnpt) as Heff.
+    pose proof (tables_effect_other _ _ _ pid Heff Hpat Hpmt Hn1 Hn2) as Htab.
+    destruct Hcases as [(c & _ & -> & ->)|(_ & k & up & ug & un & Hpk & _ & _ & Hall & Hccs & _ & Hfind)].
+    + exists O. rewrite Htab, Fes, Ef0. split; reflexivity.
+    + rewrite Hpk, payload_ccs_app, Htab, Hfind, Fes. cbn [app].
+      destruct (MuxerData_PID d =? pid) eqn:E.
+      * apply Z.eqb_eq in E. rewrite E in *. rewrite Ef0 in Hf. apply ok_some_inj in Hf. subst ctx.
+        exists k. split; [exact Hccs|reflexivity].
+      * exists O. rewrite (payload_ccs_other pid _ _ Hall) by lia. rewrite Ef0. split; reflexivity.
+  - (* WritePacket *)
+    pinj Hstep. right. split; [reflexivity|]. exists O. rewrite Ef0. split; reflexivity.
+Qed.
+
+Lemma step_es_none s o s' p pid : ms_inv s -> mux_step_part s o = (s', p) -> pa_res p <> Panic -> op_entry_ok o ->
+  pid <> C_PIDPAT -> pid <> C_pmtStartPID -> es_cc pid s = None ->
+  payload_ccs pid (muxer_pkts o p) = [] /\ removes pid o p = false /\
+  (es_cc pid s' = None \/ es_cc pid s' = Some (newWrappingCounter cc_wrap)).
+Proof.
+  intros Hinv Hstep Hnp Hen Hn1 Hn2 Hc. pose proof Hinv as [Hkeys Hnd Hwf Hpat Hpmt].
+  unfold es_cc in *. destruct (es_find pid (ms_es s)) as [ctx0|] eqn:Ef0; [discriminate|]. clear Hc.
+  assert (Hmem : es_mem pid (ms_es s) = false) by (rewrite es_mem_find, Ef0; reflexivity).
+  destruct o as [es|q|q| |d|pk]; cbn [mux_step_part muxer_pkts removes] in *.
+  - (* Add *)
+    unfold add_es in Hstep. fold (spid es) in Hstep.
+    destruct (negb (spid es =? 0)) eqn:Ezero.
+    + destruct (stream_pid_in (spid es) (ms_streams s)) eqn:Edup; pinj Hstep; cbn [pa_pkts part_of_res];
+        [rewrite Ef0; repeat split; left; reflexivity|].
+      repeat split. cbn [set_streams_es ms_es]. rewrite es_find_put.
+      destruct (spid es =? pid); [right; reflexivity|left; rewrite Ef0; reflexivity].
+    + destruct (next_free_pid _ _ _) as [np|] eqn:Enf; pinj Hstep; [|cbn in Hnp; congruence].
+      cbn [pa_pkts part_of_res]. repeat split. cbn [set_streams_es ms_es]. rewrite es_find_put.
+      destruct (np =? pid); [right; reflexivity|left; rewrite Ef0; reflexivity].
+  - (* Remove *)
+    unfold remove_es in Hstep. destruct (stream_pid_in q (ms_streams s)) eqn:Ein; pinj Hstep; cbn [pa_pkts pa_res part_of_res is_ok].
+    + destruct (q =? pid) eqn:E; cbn [andb].
+      * apply Z.eqb_eq in E. subst q. rewrite <- Hkeys, Hmem in Ein. discriminate.
+      * repeat split. left. cbn [set_streams_es ms_es]. rewrite es_find_del, E, Ef0. reflexivity.
+    + rewrite andb_false_r. repeat split. left. rewrite Ef0. reflexivity.
+  - pinj Hstep. repeat split. left. cbn [set_pcr ms_es]. rewrite Ef0. reflexivity.
+  - pose proof (write_tables_effect _ _ _ Hstep Hnp) as Heff.
+    rewrite (tables_effect_other _ _ _ pid Heff) by assumption. repeat split. left.
+    destruct (write_tables_spec _ _ _ Hstep Hnp) as [(c & _ & -> & _)|(? & ? & ? & ? & _ & _ & _ & _ & _ & _ & _ & _ & _ & ->)];
+      cbn [tables_state set_tables ms_es]; rewrite Ef0; reflexivity.
+  - destruct (write_data_spec _ _ _ _ Hstep Hnp Hen (Hwf _)) as [(_ & -> & ->)|(ctx & sr & pt & Hf & Hrt & Hnpt & Hcases)].
+    { cbn [pa_pkts]. rewrite Ef0. repeat split. left; reflexivity. }
+    destruct (retransmit_frame _ _ _ _ Hrt Hnpt) as (Fes & _).
+    pose proof (retransmit_effect _ _ _ _ Hrt Hnpt) as Heff.
+    pose proof (tables_effect_other _ _ _ pid Heff Hpat Hpmt Hn1 Hn2) as Htab.
+    assert (Hne : MuxerData_PID d <> pid) by (intros E; rewrite E in Hf; congruence).
+    destruct Hcases as [(c & _ & -> & ->)|(_ & k & up & ug & un & Hpk & _ & _ & Hall & Hccs & _ & Hfind)].
+    + rewrite Htab, Fes, Ef0. repeat split. left; reflexivity.
+    + rewrite Hpk, payload_ccs_app, Htab, Hfind, Fes. cbn [app].
+      destruct (MuxerData_PID d =? pid) eqn:E; [lia|].
+      rewrite (payload_ccs_other pid _ _ Hall) by lia. rewrite Ef0. repeat split. left; reflexivity.
+  - pinj Hstep. rewrite Ef0. repeat split. left; reflexivity.
+Qed.
+
+(* the PAT and PMT counters *)
+Lemma tables_effect_counts s sr pkts : tables_effect s sr pkts -> cc_wf (ms_pat_cc s) -> cc_wf (ms_pmt_cc s) ->
+  exists k, (k <= 1)%nat /\
+    payload_ccs C_PIDPAT pkts = ccs_from (ms_pat_cc s) k /\ ms_pat_cc sr = iter_inc k (ms_pat_cc s) /\
+    payload_ccs C_pmtStartPID pkts = ccs_from (ms_pmt_cc s) k /\ ms_pmt_cc sr = iter_inc k (ms_pmt_cc s).
+Proof.
+  intros [(-> & E1 & E2)|(ppay & mpay & -> & E1 & E2)] Hpat Hpmt.
+  - exists O. rewrite E1, E2. repeat split; try reflexivity; try lia.
+  - exists 1%nat. rewrite !payload_ccs_tables, E1, E2 by assumption.
+    rewrite !Z.eqb_refl, pmt_pid_not_pat, pat_pid_not_pmt. repeat split; try reflexivity; try lia.
+Qed.
+
+(* the table counters: a call emits k (0 or 1) table pairs; what else it emits on the two table PIDs comes from an
+   elementary stream configured on that PID (outside the domain, S2) *)
+Lemma step_tables_effect s o s' p : ms_inv s -> mux_step_part s o = (s', p) -> pa_res p <> Panic -> op_entry_ok o ->
+  exists k rpat rpmt,
+    payload_ccs C_PIDPAT (muxer_pkts o p) = ccs_from (ms_pat_cc s) k ++ rpat /\
+    (es_mem C_PIDPAT (ms_es s) = false -> rpat = []) /\ ms_pat_cc s' = iter_inc k (ms_pat_cc s) /\
+    payload_ccs C_pmtStartPID (muxer_pkts o p) = ccs_from (ms_pmt_cc s) k ++ rpmt /\
+    (es_mem C_pmtStartPID (ms_es s) = false -> rpmt = []) /\ ms_pmt_cc s' = iter_inc k (ms_pmt_cc s).
+Proof.
+  intros Hinv Hstep Hnp Hen. pose proof Hinv as [Hkeys Hnd Hwf Hpat Hpmt].
+  destruct o as [es|q|q| |d|pk]; cbn [mux_step_part muxer_pkts] in *.
+  - exists O, [], []. unfold add_es in Hstep. destruct (negb _).
+    + destruct (stream_pid_in _ _); pinj Hstep; repeat split; reflexivity.
+    + destruct (next_free_pid _ _ _); pinj Hstep; repeat split; reflexivity.
+  - exists O, [], []. unfold remove_es in Hstep. destruct (stream_pid_in _ _); pinj Hstep; repeat split; reflexivity.
+  - exists O, [], []. pinj Hstep. repeat split; reflexivity.
+  - pose proof (write_tables_effect _ _ _ Hstep Hnp) as Heff.
+    destruct (tables_effect_counts _ _ _ Heff Hpat Hpmt) as (k & _ & H1 & H2 & H3 & H4).
+    exists k, [], []. rewrite !app_nil_r. repeat split; auto.
+  - destruct (write_data_spec _ _ _ _ Hstep Hnp Hen (Hwf _)) as [(_ & -> & ->)|(ctx & sr & pt & Hf & Hrt & Hnpt & Hcases)].
+    { exists O, [], []. repeat split; reflexivity. }
+    pose proof (retransmit_effect _ _ _ _ Hrt Hnpt) as Heff.
+    destruct (tables_effect_counts _ _ _ Heff Hpat Hpmt) as (k & _ & H1 & H2 & H3 & H4).
+    destruct Hcases as [(c & _ & -> & ->)|(_ & k' & up & ug & un & Hpk & _ & _ & Hall & Hccs & Hsame & Hfind)].
+    + exists k, [], []. rewrite !app_nil_r. repeat split; auto.
+    + destruct Hsame as (_ & _ & _ & _ & _ & _ & _ & _ & Spat & Spmt & _).
+      exists k, (payload_ccs C_PIDPAT up), (payload_ccs C_pmtStartPID up).
+      rewrite Spat, Spmt, Hpk, !payload_ccs_app, H1, H3.
+      assert (Hmem : es_mem (MuxerData_PID d) (ms_es s) = true) by (rewrite es_mem_find, Hf; reflexivity).
+      repeat split; auto.
+      * intros Hno. apply (payload_ccs_other C_PIDPAT _ _ Hall). intros E. rewrite <- E in Hmem. congruence.
+      * intros Hno. apply (payload_ccs_other C_pmtStartPID _ _ Hall). intros E. rewrite <- E in Hmem. congruence.
+  - exists O, [], []. pinj Hstep. repeat split; reflexivity.
+Qed.
+
+(* ---------------- runs ---------------- *)
+
+(* the states a run goes through: the one each operation starts from *)
+Fixpoint mux_states (s : mstate) (ops : list mop) : list mstate :=
+  match ops with
+  | [] => []
+  | o :: r => s :: mux_states (fst (mux_step_part s o)) r
+  end.
+
+Lemma mux_run_parts_cons s o r :
+  mux_run_parts s (o :: r) =
+  (fst (mux_run_parts (fst (mux_step_part s o)) r), snd (mux_step_part s o) :: snd (mux_run_parts (fst (mux_step_part s o)) r)).
+Proof.
+  cbn [mux_run_parts]. destruct (mux_step_part s o) as [s1 p]. cbn [fst snd].
+  destruct (mux_run_parts s1 r) as [s2 ps]. reflexivity.
+Qed.
+
+Lemma run_inv ops : forall s, ms_inv s -> no_panic (snd (mux_run_parts s ops)) -> Forall op_entry_ok ops ->
+  ms_inv (fst (mux_run_parts s ops)).
+Proof.
+  induction ops as [|o r IH]; intros s Hinv Hnp Hen; [exact Hinv|].
+  rewrite mux_run_parts_cons in *. cbn [fst snd] in *.
+  inversion Hnp as [|x xs Hp Hnp']; subst. inversion Hen as [|y ys Ho Hen']; subst.
+  apply IH; try assumption. destruct (mux_step_part s o) as [s1 p] eqn:E. cbn [fst snd] in *.
+  eapply step_inv; eauto.
+Qed.
+
+Lemma iter_inc_range k c : cc_wf c -> k <> O -> 0 <= cc_val (iter_inc k c) <= 15.
+Proof.
+  revert c. induction k as [|k IH]; intros c Hc Hk; [congruence|]. cbn [iter_inc].
+  destruct (inc_st_spec c Hc) as (Hwf & Hr & _). destruct k as [|k]; [exact Hr|]. apply IH; [exact Hwf|discriminate].
+Qed.
+
+Lemma last_app_nonempty {A} (a b : list A) d : b <> [] -> last (a ++ b) d = last b d.
+Proof.
+  induction a as [|x a IH]; intros Hb; [reflexivity|]. cbn [app].
+  destruct (a ++ b) as [|y l] eqn:E; [apply app_eq_nil in E; destruct E; contradiction|]. exact (IH Hb).
+Qed.
+
+(* invariant tying a counter to the counters emitted so far in the current lifetime *)
+Definition tracks (c : wrappingCounter) (cur : list Z) : Prop :=
+  cur <> [] -> last cur 0 = cc_val c /\ cc_val c <= 15.
+
+Lemma tracks_extend c cur k : cc_wf c -> chain16 cur -> tracks c cur ->
+  chain16 (cur ++ ccs_from c k) /\ tracks (iter_inc k c) (cur ++ ccs_from c k).
+Proof.
+  intros Hc Hch Htr. split; [apply chain16_app_from; assumption|].
+  destruct k as [|k]; [cbn [ccs_from iter_inc]; rewrite app_nil_r; exact Htr|].
+  intros _. rewrite last_app_nonempty by (cbn [ccs_from]; discriminate).
+  rewrite last_ccs_from by discriminate. split; [reflexivity|]. apply iter_inc_range; [exact Hc|discriminate].
+Qed.
+
+Definition es_tracks (pid : Z) (s : mstate) (cur : list Z) : Prop :=
+  match es_cc pid s with Some c => tracks c cur | None => cur = [] end.
+
+Lemma es_cc_wf pid s c : ms_inv s -> es_cc pid s = Some c -> cc_wf c.
+Proof.
+  intros Hinv. unfold es_cc. destruct (es_find pid (ms_es s)) as [ctx|] eqn:E; [|discriminate].
+  cbn. intros H. apply ok_some_inj in H. subst. eapply inv_es_wf; eauto.
+Qed.
+
+Lemma lifetimes_chain pid : pid <> C_PIDPAT -> pid <> C_pmtStartPID ->
+  forall ops s cur, ms_inv s -> chain16 cur -> es_tracks pid s cur ->
+  no_panic (snd (mux_run_parts s ops)) -> Forall op_entry_ok ops ->
+  Forall chain16 (lifetimes pid (combine ops (snd (mux_run_parts s ops))) cur).
+Proof.
+  intros Hn1 Hn2. induction ops as [|o r IH]; intros s cur Hinv Hch Htr Hnp Hen.
+  - cbn. constructor; [exact Hch|constructor].
+  - rewrite mux_run_parts_cons in *. cbn [fst snd combine lifetimes] in *.
+    inversion Hnp as [|x xs Hp Hnp']; subst. inversion Hen as [|y ys Ho Hen']; subst.
+    destruct (mux_step_part s o) as [s1 p] eqn:E. cbn [fst snd] in *.
+    pose proof (step_inv _ _ _ _ Hinv E Hp Ho) as Hinv1.
+    unfold es_tracks in Htr. destruct (es_cc pid s) as [c|] eqn:Ec.
+    + pose proof (es_cc_wf _ _ _ Hinv Ec) as Hc.
+      destruct (step_es_effect _ _ _ _ pid c Hinv E Hp Ho Hn1 Hn2 Ec) as [(Hrm & HL & Hs1)|(Hrm & k & HL & Hs1)]; rewrite Hrm, HL.
+      * rewrite app_nil_r. constructor; [exact Hch|]. apply IH; try assumption; [exact I|]. unfold es_tracks. rewrite Hs1. reflexivity.
+      * destruct (tracks_extend c cur k Hc Hch Htr) as [Hch' Htr']. apply IH; try assumption. unfold es_tracks. rewrite Hs1. exact Htr'.
+    + subst cur. destruct (step_es_none _ _ _ _ pid Hinv E Hp Ho Hn1 Hn2 Ec) as (HL & Hrm & Hs1). rewrite Hrm, HL. cbn [app].
+      apply IH; try assumption. unfold es_tracks. destruct Hs1 as [-> | ->]; [reflexivity|]. intros H; congruence.
+Qed.
+
+(* C05_cc for elementary streams: every lifetime of every PID is a chain *)
+Theorem cc_chain_es period ops pid : pid <> C_PIDPAT -> pid <> C_pmtStartPID ->
+  no_panic (snd (mux_run_parts (new_muxer period) ops)) -> Forall op_entry_ok ops ->
+  Forall chain16 (lifetimes pid (combine ops (snd (mux_run_parts (new_muxer period) ops))) []).
+Proof.
+  intros H1 H2 Hnp Hen. apply lifetimes_chain; try assumption; [apply new_muxer_inv|exact I|reflexivity].
 Qed.
